@@ -38,6 +38,14 @@
 //!   P5  bookmarks outside S: remote, record unchanged
 //! and for every other action: the bare remote changes only by `remote:` actions and pushes;
 //! after a fetch jj's record equals the remote's actual position.
+//!
+//! Mechanics: one `git push` is about eight processes and costs seconds of CPU in this sandbox,
+//! so a history never re-runs its prefix: it executes only its last action on a copy of the two
+//! repositories as its parent history left them (`Snaps`); the searches of a tier run
+//! concurrently; a gate history is additionally replayed in full from the initial repositories and
+//! must give the same observation as the snapshot extension; `--replay` always replays in full.
+//! The quick tier is a hand-sized "push table" (about 15 git operations), the thorough tier
+//! explores the single-bookmark space until no new state appears (or the wall-clock cap).
 
 use std::collections::BTreeMap;
 use std::collections::HashMap;
@@ -801,6 +809,7 @@ struct Stats {
     nontrivial_states: Mutex<HashSet<u64>>,
     all_states: Mutex<HashSet<u64>>,
     samples: Mutex<Vec<Value>>,
+    gate_observation: Mutex<Option<(String, usize)>>,
     started_from_snapshot: Counter,
     started_from_template: Counter,
     t_new_us: Counter,
@@ -1010,7 +1019,10 @@ fn enabled(w: &World, o: &Obs) -> Vec<Act> {
             }
         }
     }
-    acts.push(Act::Fetch);
+    // a fetch when the remote is exactly where jj last saw it is not explored
+    if o.names.iter().zip(&w.ghost).any(|(n, g)| n.a != *g) {
+        acts.push(Act::Fetch);
+    }
     let pushable: Vec<usize> = (0..NAMES.len()).filter(|n| w.push_update(*n).is_some()).collect();
     for n in &pushable {
         acts.push(Act::Push(*n));
@@ -1201,72 +1213,159 @@ fn main() {
         ctx.finish(Coverage { evaluations: 1, ..Default::default() });
     }
 
-    // determinism gate (also proves that push and fetch work with the installed git)
-    let gate: Vec<Act> = ["local:a=c1", "push:a", "remote:a=c4", "local:a=c2", "push:a", "fetch", "local:a=c3", "push:a"]
-        .iter()
-        .map(|s| Act::parse(s).unwrap())
-        .collect();
-    let g1 = step(&scratch, &Stats::default(), None, false, &gate).map(|o| (o.key, o.violations));
-    // second time incrementally, through kept snapshots: must give the same observation
-    let gate_snaps = Snaps::default();
-    let mut g2 = None;
-    for n in 0..=gate.len() {
-        g2 = step(&scratch, &Stats::default(), Some(&gate_snaps), true, &gate[..n]).map(|o| (o.key, o.violations));
-    }
-    gate_snaps.clear();
-    if g1.is_none() {
-        machinery_failure("determinism gate: the gate history is not executable (does git push/fetch work here?)");
-    }
-    if g1 != g2 {
-        machinery_failure(
-            "determinism gate: replaying a history from scratch and extending kept snapshots gave different observations",
-        );
-    }
+    // Every git push / fetch is ~8 processes; the worker threads mostly wait for them.
+    let _ = rayon::ThreadPoolBuilder::new().num_threads(32).build_global();
 
-    // (start prefix, depth, restrict to bookmark a)
-    let plan: Vec<(Vec<&str>, usize, bool)> = if ctx.quick() {
-        vec![(vec![], 4, true), (vec!["local:a=c1", "local:b=c1", "push:all"], 3, false)]
+    // Searches.  `alphabet` restricts the actions offered to the search (a `git push` costs
+    // seconds of CPU in this sandbox, so the quick tier is a hand-sized "push table"):
+    //   single   edits, fetches and pushes of bookmark a only
+    //   two      everything
+    //   q-create bookmark a, local target c1, other clone sets c1 | c3, no fetch
+    //   q-move   bookmark a, local targets c2 | delete, other clone sets c4 | deletes, no fetch
+    //   q-mixed  the other clone moves/deletes b, push:all only
+    //   t-remote2 both bookmarks: the other clone sets c3 | c4 | deletes, every kind of push, no
+    //            local edit, no fetch (started after local changes of both bookmarks: all mixes of
+    //            up-to-date and stale refs in one push)
+    let plan: Vec<(Vec<&str>, usize, &str)> = if ctx.quick() {
+        vec![
+            (vec![], 3, "q-create"),
+            (vec!["remote:a=c1", "fetch"], 3, "q-move"),
+            (vec!["local:a=c1", "local:b=c1", "push:all", "local:a=c2", "local:b=c2"], 2, "q-mixed"),
+        ]
     } else {
         vec![
-            (vec![], 7, true),
-            (vec![], 4, false),
-            (vec!["local:a=c1", "local:b=c1", "push:all"], 3, false),
+            (vec![], 8, "single"),
+            (vec!["local:a=c1", "local:b=c1", "push:all", "local:a=c2", "local:b=-"], 3, "t-remote2"),
+            (vec!["local:a=c1", "local:b=c3"], 3, "t-remote2"),
         ]
     };
-    let wall_budget = ctx.pick(45.0, 840.0);
-    let mut st = bfs::BfsStats::default();
-    let mut per_search: Vec<Value> = vec![];
-    let mut all_complete = true;
-    let snaps = Snaps::default();
-    for (prefix, depth, only_a) in &plan {
-        snaps.clear();
+    let wall_budget = ctx.pick(50.0, 780.0);
+    let allowed = |alphabet: &str, a: &Act| -> bool {
+        match alphabet {
+            "single" => !a.touches_second_name(),
+            "q-create" => match a {
+                Act::Local(n, c) => *n == 0 && *c == 1,
+                Act::Remote(n, c) => *n == 0 && (*c == 1 || *c == 3),
+                Act::Fetch => false,
+                Act::Push(n) => *n == 0,
+            },
+            "q-move" => match a {
+                Act::Local(n, c) => *n == 0 && (*c == 2 || *c == 0),
+                Act::Remote(n, c) => *n == 0 && (*c == 4 || *c == 0),
+                Act::Fetch => false,
+                Act::Push(n) => *n == 0,
+            },
+            "t-remote2" => match a {
+                Act::Local(..) => false,
+                Act::Remote(_, c) => *c == 3 || *c == 4 || *c == 0,
+                Act::Fetch => false,
+                Act::Push(_) => true,
+            },
+            "q-mixed" => match a {
+                Act::Local(..) => false,
+                Act::Remote(n, c) => *n == 1 && (*c == 3 || *c == 0),
+                Act::Fetch => false,
+                Act::Push(n) => *n == ALL,
+            },
+            _ => true,
+        }
+    };
+    let gate_history: Vec<Act> = if ctx.quick() {
+        vec!["local:a=c1", "remote:a=c3", "push:a"]
+    } else {
+        vec!["remote:a=c1", "fetch", "local:a=c2", "remote:a=c4", "push:a"]
+    }
+    .iter()
+    .map(|s| Act::parse(s).unwrap())
+    .collect();
+    let run_search = |prefix: &Vec<&str>, depth: usize, alphabet: &str| -> bfs::BfsStats {
+        let snaps = Snaps::default();
         let prefix_acts: Vec<Act> = prefix.iter().map(|s| Act::parse(s).unwrap()).collect();
         let cfg = bfs::BfsConfig {
-            max_depth: *depth,
+            max_depth: depth,
             max_states: 20_000_000,
             max_wall_s: (wall_budget - ctx.elapsed_s()).max(1.0),
         };
-        let one = bfs::search(
+        bfs::search(
             &cfg,
             |h: &[Act]| {
                 let mut full = prefix_acts.clone();
                 full.extend_from_slice(h);
-                let keep = h.len() < *depth;
+                let keep = h.len() < depth;
                 let o = step(&scratch, &stats, Some(&snaps), keep, &full)?;
+                if ctx.quick() && full == gate_history {
+                    *stats.gate_observation.lock().unwrap() = Some((o.key.clone(), o.violations.len()));
+                }
                 for (sig, msg) in &o.violations {
                     ctx.violation(sig, msg.clone(), history_json(&full));
                 }
-                let actions = o.actions.into_iter().filter(|a| !*only_a || !a.touches_second_name()).collect();
+                let actions = o.actions.into_iter().filter(|a| allowed(alphabet, a)).collect();
                 Some(bfs::StepResult { key: o.key, actions })
             },
             |a| a.label(),
-        );
+        )
+    };
+    // Gate (also proves that push and fetch work with the installed git): one history that lies
+    // inside the first search is additionally replayed from the initial repositories, concurrently
+    // with the searches; the search reaches it by extending kept snapshots action by action.  Both
+    // must give the same observation.  (The thorough tier does the same for a longer history with
+    // a fetch in it.)
+    let run_gate = || {
+        let from_scratch =
+            step(&scratch, &Stats::default(), None, false, &gate_history).map(|o| (o.key, o.violations.len()));
+        if ctx.thorough() {
+            // the search may reach the gate's states along other histories: extend snapshots here
+            let gate_snaps = Snaps::default();
+            let mut inc = None;
+            for n in 0..=gate_history.len() {
+                inc = step(&scratch, &Stats::default(), Some(&gate_snaps), true, &gate_history[..n])
+                    .map(|o| (o.key, o.violations.len()));
+            }
+            *stats.gate_observation.lock().unwrap() = inc;
+        }
+        from_scratch
+    };
+    // make sure the template exists before anything runs concurrently
+    drop(World::new(&scratch));
+    let results: Vec<bfs::BfsStats> = std::thread::scope(|sc| {
+        let gate_handle = sc.spawn(run_gate);
+        let handles: Vec<_> = plan
+            .iter()
+            .map(|(prefix, depth, alphabet)| sc.spawn(|| run_search(prefix, *depth, alphabet)))
+            .collect();
+        let results: Vec<bfs::BfsStats> = handles
+            .into_iter()
+            .map(|h| h.join().unwrap_or_else(|_| machinery_failure("a search thread panicked")))
+            .collect();
+        let from_scratch = gate_handle.join().unwrap_or_else(|_| machinery_failure("the gate thread panicked"));
+        let Some(from_scratch) = from_scratch else {
+            machinery_failure("gate: the gate history is not executable (does git push/fetch work here?)");
+        };
+        let by_snapshots = stats.gate_observation.lock().unwrap().clone();
+        match by_snapshots {
+            Some(obs) if obs == from_scratch => {}
+            Some(obs) => machinery_failure(&format!(
+                "gate: full replay and snapshot extension disagree: {from_scratch:?} vs {obs:?}"
+            )),
+            // only possible if a wall-clock cap or a violation cut the first search short
+            None => {
+                if ctx.violation_count() == 0 && !results.iter().any(|r: &bfs::BfsStats| r.capped) {
+                    machinery_failure("gate: the first search never executed the gate history");
+                }
+            }
+        }
+        results
+    });
+    let mut st = bfs::BfsStats::default();
+    let mut per_search: Vec<Value> = vec![];
+    let mut all_complete = true;
+    for ((prefix, depth, alphabet), one) in plan.iter().zip(results) {
         let complete = !one.capped && one.max_depth_completed >= *depth;
         all_complete &= complete;
         per_search.push(json!({
             "start_after": prefix,
             "depth": depth,
-            "restricted_to_bookmark_a": only_a,
+            "alphabet": alphabet,
             "states": one.states,
             "transitions": one.transitions,
             "max_depth_completed": one.max_depth_completed,
@@ -1289,6 +1388,7 @@ fn main() {
         }
     }
     st.states = stats.all_states.lock().unwrap().len() as u64;
+    println!("searches: {}", serde_json::to_string(&per_search).unwrap());
 
     if ctx.violation_count() == 0 && all_complete {
         for (label, (n, newstates)) in &st.per_action {
@@ -1314,7 +1414,7 @@ fn main() {
 
     let plan_text = plan
         .iter()
-        .map(|(p, d, x)| format!("<= {d} actions{} after {p:?}", if *x { " (bookmark a only)" } else { "" }))
+        .map(|(p, d, x)| format!("<= {d} actions (alphabet '{x}') after {p:?}"))
         .collect::<Vec<_>>()
         .join("; ");
     let nontrivial = stats.nontrivial_states.lock().unwrap().len() as u64;
